@@ -13,6 +13,7 @@ import (
 	"sort"
 	"strings"
 	"sync"
+	"time"
 )
 
 // Case is one generated input / operation sequence / schedule, what the
@@ -48,6 +49,8 @@ type Ctx struct {
 	n       int
 	Stats   map[string]int
 	Workdir string
+	Fails   int
+	lastFlush time.Time
 }
 
 func (c *Ctx) Thorough() bool { return c.Tier == "thorough" }
@@ -83,6 +86,21 @@ func (c *Ctx) Emit(cs *Case) {
 	}
 	c.w.Write(b)
 	c.w.WriteByte('\n')
+	if cs.Oracle == "fail" {
+		c.Fails++
+	}
+	if time.Since(c.lastFlush) > time.Second || cs.Oracle == "fail" {
+		c.w.Flush()
+		c.lastFlush = time.Now()
+	}
+}
+
+// TooManyFails tells generators/executors to stop early: enough failing
+// cases have been collected and every further one may cost a time-out.
+func (c *Ctx) TooManyFails() bool {
+	c.mu.Lock()
+	defer c.mu.Unlock()
+	return c.Fails >= 12
 }
 
 // Count bumps a named counter of the input distribution (printed in evidence).
